@@ -750,9 +750,10 @@ fn inject_case(c: &Case, out: &mut dyn Write) -> Vec<String> {
         b.dev.rx.push_back(unhex(t[2]));
         match b.poll() {
             Ok(()) => {
-                let tx = b.dev.drain_tx().len();
-                let rx = b.take_raw().len();
-                writeln!(out, "r ok tx={} rx={}", tx, rx).unwrap();
+                // (what the interface answers is not compared: the model side only claims "no panic")
+                b.dev.drain_tx();
+                b.take_raw();
+                writeln!(out, "r ok").unwrap();
             }
             Err(()) => {
                 writeln!(out, "r PANIC").unwrap();
